@@ -440,7 +440,7 @@ fn structured<F: Field>(rng: &mut Rng, level: usize) -> Vec<F> {
     let one = F::one();
     let pick = |a: usize, b: usize, c: usize| [a, b, c][level];
     let mut out: Vec<F> = vec![F::zero(), one, -one];
-    for i in 2..=(pick(3, 12, 12) as u64) { out.push(F::from(i)); out.push(-F::from(i)); }
+    for i in 2..=(pick(3, 12, 12) as u64) { out.push(F::from(i)); if level > 0 { out.push(-F::from(i)); } }
     out.push(F::from(2u64).inverse().unwrap());
     // base-prime-field elements (squares and non-squares of the subfield) and other prefix subfields
     for _ in 0..pick(1, 3, 8) {
@@ -476,7 +476,7 @@ fn structured<F: Field>(rng: &mut Rng, level: usize) -> Vec<F> {
     let mask = if s >= 64 { u64::MAX } else { (1u64 << s) - 1 };
     let is_ts = matches!(F::SQRT_PRECOMP, Some(SqrtPrecomputation::TonelliShanks { .. }));
     for k in 0..=s {
-        if level == 0 && !is_ts && !(k <= 1 || k + 1 >= s) { continue; }
+        if level == 0 && !(k <= 1 || k + 1 >= s || (is_ts && k % 8 == 0)) { continue; }
         let w = pow2k(tp.z, s - k); // order exactly 2^k
         if level > 0 { out.push(w); out.push(w * odd(rng)); }
         // b = z^(2^(s−k)): k rounds (k < s) or the non-residue exit (k = s); b = z^(−2^(s−k)): a single round with j = s − k
@@ -486,7 +486,8 @@ fn structured<F: Field>(rng: &mut Rng, level: usize) -> Vec<F> {
         if s - k < 64 && level > 0 { out.push(tp.z.pow([e]) * odd(rng)); }
     }
     // b = z^2: s − 1 rounds (the maximum); b = z^(±1): non-residue found after the longest inner loop
-    for e0 in [mask - 1, mask, mask - 3, mask / 3 * 2, 2] {
+    for (i, e0) in [2, mask, mask - 1, mask - 3, mask / 3 * 2].into_iter().enumerate() {
+        if level == 0 && i >= 3 { break; }
         let e = tp.tinv.wrapping_mul(e0) & mask;
         if level > 0 { out.push(tp.z.pow([e])); }
         out.push(tp.z.pow([e]) * odd(rng));
@@ -497,7 +498,7 @@ fn structured<F: Field>(rng: &mut Rng, level: usize) -> Vec<F> {
     }
     // squares of random elements, random elements, squares times a non-residue
     let qnr = tp.z;
-    for _ in 0..pick(2, 10, 60) {
+    for _ in 0..pick(1, 10, 60) {
         let r: F = rand_elem(rng);
         out.push(r.square());
         out.push(r);
@@ -515,25 +516,29 @@ enum Mode {
     Exhaustive(u64),
     /// structured (level 0 = light, 1, 2) + this many random elements
     Sample(usize, usize),
-    /// a handful (fields whose `sqrt` is `unimplemented!()`)
-    Few,
+    /// a handful (fields whose `sqrt` is `unimplemented!()`, or whose spec arithmetic is very expensive);
+    /// the flag adds a few more full-size elements
+    Few(bool),
 }
 
 fn elems<F: Field>(mode: Mode, rng: &mut Rng, thorough: bool) -> Vec<F> {
     match mode {
         Mode::Exhaustive(limit) if field_size::<F>().map(|q| q <= limit).unwrap_or(false) => all_elems::<F>(),
-        Mode::Exhaustive(_) => elems::<F>(Mode::Sample(if thorough { 2 } else { 1 }, if thorough { 3000 } else { 400 }), rng, thorough),
+        Mode::Exhaustive(_) => elems::<F>(Mode::Sample(if thorough { 2 } else { 1 }, if thorough { 3000 } else { 250 }), rng, thorough),
         Mode::Sample(level, k) => {
             let mut v = structured::<F>(rng, level);
             for _ in 0..k { let r: F = rand_elem(rng); v.push(r); if v.len() % 3 == 0 { v.push(r.square()); } }
             v
         }
-        Mode::Few => {
+        Mode::Few(more) => {
             let r: F = rand_elem(rng);
             let n = F::extension_degree() as usize;
             let mut v = vec![F::BasePrimeField::zero(); n]; v[n - 1] = F::BasePrimeField::one();
             let top: F = from_coords(v);
-            vec![F::zero(), F::one(), -F::one(), F::from(4u64), F::from_base_prime_field(F::BasePrimeField::GENERATOR), r.square(), r, top, top.square()]
+            let mut v = vec![F::zero(), F::one(), r.square()];
+            if n <= 6 || more { v.push(r.square() * top); }
+            if more { v.extend([-F::one(), F::from(4u64), F::from_base_prime_field(F::BasePrimeField::GENERATOR), top, r, top.square()]); }
+            v
         }
     }
 }
@@ -724,26 +729,29 @@ pub fn run(rng: &mut Rng, th: bool, out: &mut Out, only: &Option<String>) {
     let big = Sample(if th { 2 } else { 1 }, if th { 150 } else { 12 });
     // fields whose spec arithmetic (Euler's criterion by schoolbook tower multiplication) is expensive
     let heavy = Sample(if th { 1 } else { 0 }, if th { 30 } else { 4 });
-    let heavier = if th { Sample(0, 10) } else { Few };
+    let heavier = if th { Sample(0, 10) } else { Few(false) };
+    // second flavours of a modulus already covered, and big quadratic extensions: light in the quick tier
+    let light = Sample(if th { 2 } else { 0 }, if th { 150 } else { 8 });
     macro_rules! bfp { ($f:ty, $id:expr) => { run_fp::<$f>($id, "fp", big, rng, th, out, only); }; }
+    macro_rules! lfp { ($f:ty, $id:expr) => { run_fp::<$f>($id, "fp", light, rng, th, out, only); }; }
     bfp!(bls12_381::Fq, "bls_fq"); bfp!(bls12_381::Fr, "bls_fr");
-    bfp!(FDBls381Fr, "zoo_bls_fr_d"); bfp!(FHBls381Fr, "zoo_bls_fr_h"); bfp!(FHBls381Fq, "zoo_bls_fq_h");
+    lfp!(FDBls381Fr, "zoo_bls_fr_d"); lfp!(FHBls381Fr, "zoo_bls_fr_h"); lfp!(FHBls381Fq, "zoo_bls_fq_h");
     bfp!(mnt4_753::Fq, "mnt4_fq"); bfp!(mnt4_753::Fr, "mnt4_fr");
     bfp!(bn384_small_two_adicity::Fq, "bn384_fq"); bfp!(bn384_small_two_adicity::Fr, "bn384_fr");
-    bfp!(secp256k1::Fq, "secp_fq"); bfp!(secp256k1::Fr, "secp_fr"); bfp!(FHSecp256k1, "zoo_secp_h");
+    bfp!(secp256k1::Fq, "secp_fq"); bfp!(secp256k1::Fr, "secp_fr"); lfp!(FHSecp256k1, "zoo_secp_h");
     bfp!(fp128::Fq, "fp128"); bfp!(ed_on_bls12_381::Fr, "edbls_fr");
-    bfp!(FDGoldilocks, "gold_d"); bfp!(FHGoldilocks, "gold_h"); bfp!(FDM61, "m61"); bfp!(FDM127, "m127");
-    bfp!(FDP64m59, "p64m59"); bfp!(FHP128m159, "p128m159_h"); bfp!(FDP25519, "p25519"); bfp!(FDSecp384r1, "secp384r1");
+    bfp!(FDGoldilocks, "gold_d"); lfp!(FHGoldilocks, "gold_h"); lfp!(FDM61, "m61"); lfp!(FDM127, "m127");
+    lfp!(FDP64m59, "p64m59"); lfp!(FHP128m159, "p128m159_h"); lfp!(FDP25519, "p25519"); lfp!(FDSecp384r1, "secp384r1");
     bfp!(M<DBls377Fr, 4>, "bls377_fr"); bfp!(M<DBls377Fq, 6>, "bls377_fq");
-    run_fp2::<bls12_381::Fq2Config>("bls_fq2", "neg", big, rng, th, out, only);
-    run_fp2::<Q2_BlsFr>("q_blsfr", "def", big, rng, th, out, only);
-    run_fp2::<Q2_Gold>("q_gold", "def", big, rng, th, out, only);
+    run_fp2::<bls12_381::Fq2Config>("bls_fq2", "neg", light, rng, th, out, only);
+    run_fp2::<Q2_BlsFr>("q_blsfr", "def", light, rng, th, out, only);
+    run_fp2::<Q2_Gold>("q_gold", "def", light, rng, th, out, only);
     run_fp3::<mnt6_753::Fq3Config>("mnt6_fq3", heavy, rng, th, out, only);
     run_fp4::<Q4_BlsFr>("t4_blsfr", "def", heavy, rng, th, out, only);
     run_fp6a::<Mnt6Fq6>("mnt6_fq6", heavier, rng, th, out, only);
     // quadratic extension of a field without square-root algorithm: every `sqrt` hits `unimplemented!()`
-    run_fp12::<D12_7>("t12_7", "def", "def", Few, rng, th, out, only);
-    run_fp12::<bls12_381::Fq12Config>("bls_fq12", "neg", "bls", Few, rng, th, out, only);
+    run_fp12::<D12_7>("t12_7", "def", "def", Few(true), rng, th, out, only);
+    run_fp12::<bls12_381::Fq12Config>("bls_fq12", "neg", "bls", Few(th), rng, th, out, only);
 
     // ---- coordinate recovery
     sw_ops::<SW13>("sw13", "d13", false, rng, th, out, only);
